@@ -177,6 +177,15 @@ def run_config(ctx, cfg, Nmax, with_model=True, stop_at_first=False):
     # thermal dts are needed by the model: reference records them
     ref = ReferenceT(dev, refopts, Nmax + 1, sched=sched, **kw)
     first = None
+    # "t equal to the sum of the first s time steps": the per-step dt record is the step that was applied to the state
+    mm = ref.recorded_vs_applied()
+    ctx.case((cfg["name"], "recorded-dt-is-applied-dt"), nontrivial=sched)
+    if mm is not None:
+        rp = dict(config=cfg["name"], **mm)
+        ctx.fail("recorded-dt-not-applied", f"{cfg['name']}: update {mm['step']} records dt={mm['recorded']!r} but the state was advanced with dt={mm['applied']!r}", rp)
+        first = dict(key="recorded-dt-not-applied", what="recorded dt differs from the applied dt", **rp)
+        if stop_at_first:
+            return first
     for N in range(0, Nmax + 1):
         Tend = 0.0 if N == 0 else (ref.times[N - 1] + ref.times[N]) / 2
         for k in range(1, N + 3):
